@@ -124,7 +124,7 @@ def exec_case(kind, payload):
 
 
 def run(ctx):
-    bound = 3 if ctx.thorough else 2
+    bound = 4 if ctx.thorough else 2
     stats = {}
     items = [(list(ch), nd, ast) for ch, nd, ast in dbe.explore(gen, bound, stats)]
     ctx.log(f"{len(items)} scenarios with <= {bound} deviations")
